@@ -75,6 +75,7 @@ structure EmplaceSpec (P : Policy σ) (Ok : σ → Prop) (s : Shard σ) (r : Rec
   /-- conservation: the new record plus what was indexed = what is indexed now plus what left -/
   perm : (r :: s.index).Perm (res.1.index ++ res.2.1.map (·.2))
   shape : ∃ (s1 : Shard σ) (vs : List Rec) (repl : List (Reason × Rec)),
+    Shard.evict P s (s.cap - r.weight) = (s1, vs, false) ∧
     EvictSpec P Ok (s.cap - r.weight) s [] (s1, vs, false) ∧
     res.2.1 = vs.map (fun v => (Reason.evict, v)) ++ repl ∧
     ((repl = [] ∧ findKey r.key s1.index = none ∧ res.1.usage = s1.usage + r.weight ∧
@@ -88,7 +89,7 @@ theorem emplace_spec (L : Lawful P Ok) {s : Shard σ} (h : ShardInv P Ok s) {r :
   unfold Shard.emplace
   simp only [hph, Bool.false_eq_true, if_false]
   have es := evict_spec L (s.cap - r.weight) s h
-  generalize Shard.evict P s (s.cap - r.weight) = ev at es
+  generalize hevq : Shard.evict P s (s.cap - r.weight) = ev at es
   obtain ⟨s1, vs, pk⟩ := ev
   have hpk : pk = false := es.no_panic
   subst hpk
@@ -162,7 +163,7 @@ theorem emplace_spec (L : Lawful P Ok) {s : Shard σ} (h : ShardInv P Ok s) {r :
       have := (hperm1.trans (hperm2.append_right vs)).cons r
       refine this.trans ?_
       grind
-    · refine ⟨s1, vs, [(Reason.replace, old)], ⟨rfl, h1, es.cap_eq, ⟨vs, by simp, hu, he, hneed, hidx, hsub, hnd⟩, es.done⟩, rfl, Or.inr ⟨old, rfl, hold, ?_, rfl⟩⟩
+    · refine ⟨s1, vs, [(Reason.replace, old)], hevq, ⟨rfl, h1, es.cap_eq, ⟨vs, by simp, hu, he, hneed, hidx, hsub, hnd⟩, es.done⟩, rfl, Or.inr ⟨old, rfl, hold, ?_, rfl⟩⟩
       show s1.usage - old.weight + r.weight + old.weight = s1.usage + r.weight
       have := h1.usage_eq; omega
   · -- plain insert
@@ -197,7 +198,7 @@ theorem emplace_spec (L : Lawful P Ok) {s : Shard σ} (h : ShardInv P Ok s) {r :
         rw [this, List.map_id]
       rw [e]
       exact hperm1.cons r
-    · exact ⟨s1, vs, [], ⟨rfl, h1, es.cap_eq, ⟨vs, by simp, hu, he, hneed, hidx, hsub, hnd⟩, es.done⟩, by simp, Or.inl ⟨rfl, hnone, rfl, rfl⟩⟩
+    · exact ⟨s1, vs, [], hevq, ⟨rfl, h1, es.cap_eq, ⟨vs, by simp, hu, he, hneed, hidx, hsub, hnd⟩, es.done⟩, by simp, Or.inl ⟨rfl, hnone, rfl, rfl⟩⟩
 
 /-- `emplace` of a phantom (disk-only) record: nothing is evicted, the record is not indexed. -/
 theorem emplace_phantom_spec (L : Lawful P Ok) {s : Shard σ} (h : ShardInv P Ok s) {r : Rec}
